@@ -247,6 +247,15 @@ class Merge(Expr):
 
     def _divisions(self):
         if self.merge_indexed_left and self.merge_indexed_right:
+            if (
+                self._is_single_partition_broadcast
+                and self.left.npartitions != self.right.npartitions
+            ):
+                # Lowered to a blockwise merge of the single partition with
+                # the partitions of the other side, which keeps its divisions
+                if self.left.npartitions > self.right.npartitions:
+                    return self.left.divisions
+                return self.right.divisions
             divisions = list(
                 unique(merge_sorted(self.left.divisions, self.right.divisions))
             )
